@@ -55,13 +55,50 @@ static std::string show_args(const VfRelation* R, const Eval& E) {
 // ================================================================================================ C03
 static int kmax(int nt) { return nt == 0 ? 1 : 4; }
 // operand window (binades around 1): as wide as the exponent range allows when every operand (one of them squared) enters a product
-static int window(int nt, int nargs) {
+static int window(int nt, int nargs, bool full = false) {
   const int S = 2 * kmax(nt) * 7;                       // largest scale exponent of one operand (sum |d| <= 7)
-  const int budget = (nt == 0 ? 120 : 1000) / (nargs + 1) - S;
-  const int cap = nt == 0 ? 45 : 200;
+  // long double: `full` uses its own exponent range (2^+-16382); otherwise its operands stay inside the range of double, like the double cases
+  const int budget = (nt == 0 ? 120 : (nt == 2 && full) ? 16000 : 1000) / (nargs + 1) - S;
+  const int cap = nt == 0 ? 45 : (nt == 2 && full) ? 3200 : 200;
   return budget < 2 ? 2 : budget > cap ? cap : budget;
 }
 static int scale_exp(const int* d, const long long* k) { int s = 0; for (int q = 0; q < 7; q++) s += 2 * (int)k[q] * d[q]; return s; }
+
+// A relation returned a non-finite value (or an all-zero result) from finite non-zero operands.  Overflow / underflow of the true result is legitimate, a
+// threshold or an intermediate that leaves the range is not.  Oracle: dimensional homogeneity (C03) - the same relation is evaluated in base units rescaled
+// by powers of four chosen to bring every operand near 1; if that evaluation is finite and, scaled back, lies well inside the normal range of the numeric
+// type, the result was representable and the library's inf / NaN / 0 is wrong.  Dimensionless operands cannot be moved, so cancellations (1/(gamma - 1) at
+// gamma = 1, cp - cv = 0) reproduce in the rescaled evaluation and are not reported.
+static bool representable_in_rescaled_units(const VfRelation* R, const Eval& E, int nt, std::string* what) {
+  long long k[7] = {0, 0, 0, 0, 0, 0, 0};
+  int ea[9]; bool movable[9];
+  for (int a = 0; a < R->nargs; a++) {
+    LD m = 0; for (int j = 0; j < R->args[a].ncomp; j++) m = std::max(m, std::fabs(E.in[a][j]));
+    if (!(m > 0) || !std::isfinite(m)) return false;
+    ea[a] = std::ilogb(m); movable[a] = false; for (int q = 0; q < 7; q++) if (R->args[a].dims[q]) movable[a] = true;
+  }
+  for (int pass = 0; pass < 6; pass++) for (int q = 0; q < 7; q++) {
+    double num = 0, den = 0;
+    for (int a = 0; a < R->nargs; a++) { if (!movable[a]) continue; const int d = R->args[a].dims[q]; if (!d) continue; long long rest = ea[a]; for (int qq = 0; qq < 7; qq++) if (qq != q) rest += 2 * k[qq] * R->args[a].dims[qq]; num += (double)rest * d; den += (double)d * d; }
+    if (den > 0) k[q] = (long long)std::llround(-num / (2 * den));
+  }
+  Eval B;
+  for (int a = 0; a < R->nargs; a++) {
+    const int e = scale_exp(R->args[a].dims, k);
+    for (int j = 0; j < R->args[a].ncomp; j++) { const LD v = std::ldexp(E.in[a][j], e); if (v != 0 && (std::fabs(v) < std::ldexp((LD)1, ntinfo(nt).emin + 2) || !std::isfinite(v))) return false; B.in[a][j] = v; }
+    if (ea[a] + e > 40 || ea[a] + e < -40) { if (movable[a]) return false; }   // could not bring the operands together: undecided
+  }
+  B.run(R);
+  const int er = scale_exp(R->res.dims, k);
+  LD m = 0; for (int j = 0; j < R->res.ncomp; j++) { if (!std::isfinite(B.out[j])) return false; m = std::max(m, std::fabs(B.out[j])); }
+  if (!(m > 0)) return false;
+  const int pe = std::ilogb(m) - er;
+  if (pe > ntinfo(nt).emax - 8 || pe < ntinfo(nt).emin + 8) return false;   // the true result is (nearly) out of range: overflow / underflow is the IEEE answer
+  std::string ks; for (int q = 0; q < 7; q++) ks += fmt("%s4^%lld", q ? "," : "", k[q]);
+  *what = fmt("with the base units (T,L,M,I,Th,N,J) rescaled by (%s) the same relation returns %s, i.e. about 2^%d in the original units - well inside the range of %s", ks.c_str(), comps_dec(B.out, R->res.ncomp).c_str(), pe, ntinfo(nt).name);
+  return true;
+}
+static bool all_zero(const LD* v, int n) { for (int i = 0; i < n; i++) if (v[i] != 0) return false; return true; }
 
 static Verdict c03_scaling(const Case& c) {
   const int nt = (int)c.i[0]; const VfRelation* R = g_rel[nt][(size_t)c.i[1]];
@@ -73,7 +110,13 @@ static Verdict c03_scaling(const Case& c) {
   for (int a = 0; a < R->nargs; a++) { const int e = scale_exp(R->args[a].dims, k); if (e) any = true; for (int j = 0; j < R->args[a].ncomp; j++) B.in[a][j] = std::ldexp(A.in[a][j], e); }
   const int er = scale_exp(R->res.dims, k); if (er) any = true;
   A.run(R);
-  if (!finite_all(A.out, R->res.ncomp)) return Verdict::skip("result-not-finite");
+  if (!finite_all(A.out, R->res.ncomp) || all_zero(A.out, R->res.ncomp)) {
+    // the unit rescalings of this check are too small to bring a lost range back; a far rescaling that brings every operand near 1 can
+    std::string why;
+    if (representable_in_rescaled_units(R, A, nt, &why))
+      return Verdict::fail(fmt("%s [%s] returns %s for the finite operands %s although the result is representable: %s", R->name, ntinfo(nt).name, comps_dec(A.out, R->res.ncomp).c_str(), show_args(R, A).c_str(), why.c_str()));
+    if (!finite_all(A.out, R->res.ncomp)) return Verdict::skip("result-not-finite");
+  }
   B.run(R);
   Verdict V; V.cls = std::string(ntinfo(nt).name) + ";kind" + std::to_string(R->kind);
   bool exact = true, nonzero = false;
@@ -100,8 +143,10 @@ static Verdict c03_scaling(const Case& c) {
 }
 static rc::Gen<Case> gen_c03(int inst) {
   const Ref rf = g_all[(size_t)inst]; const VfRelation* R = g_rel[rf.nt][(size_t)rf.idx];
-  const int n = total_comps(R), nt = rf.nt, km = kmax(nt), w = window(nt, R->nargs > 4 ? 1 : R->nargs);
-  return rc::gen::map(rc::gen::tuple(rc::gen::container<std::vector<int>>(7, irange(-km, km)), gen_reals(n, nt, -w, w, kNeg), irange(0, 1)),
+  const int n = total_comps(R), nt = rf.nt, km = kmax(nt), w = window(nt, R->nargs > 4 ? 1 : R->nargs), wf = window(nt, R->nargs > 4 ? 1 : R->nargs, true);
+  // long double: half of the cases use magnitudes beyond the range of double (a relation that silently computes in double overflows there; rescaling by powers
+  // of two cannot see the lost precision, only the lost range)
+  return rc::gen::map(rc::gen::tuple(rc::gen::container<std::vector<int>>(7, irange(-km, km)), wf == w ? gen_reals(n, nt, -w, w, kNeg) : rc::gen::oneOf(gen_reals(n, nt, -w, w, kNeg), gen_reals(n, nt, -wf, wf, kNeg)), irange(0, 1)),
                       [=](const std::tuple<std::vector<int>, std::vector<LD>, int>& t) {
                         Case c; c.i = {nt, rf.idx}; for (int x : std::get<0>(t)) c.i.push_back(x); c.r = std::get<1>(t);
                         if (std::get<2>(t)) for (auto& x : c.r) x = std::fabs(x);   // half of the cases all-positive (roots, ratios of positive quantities)
@@ -345,12 +390,18 @@ static void find_pairs() {
     }
   }
 }
+
 static Verdict c05_pair(const Case& c) {
   const Pair& P = g_pairs[(size_t)c.i[0]]; const int nt = P.nt;
   const VfRelation* r1 = g_rel[nt][(size_t)P.r1]; const VfRelation* r2 = g_rel[nt][(size_t)P.r2];
   Eval E; load_operands(r1, c, E); E.run(r1);
   const int nc = r1->res.ncomp, na = r1->args[P.target].ncomp;
-  if (!finite_all(E.out, nc)) return Verdict::skip("intermediate-not-finite");
+  if (!finite_all(E.out, nc) || all_zero(E.out, nc)) {
+    std::string why;
+    if (representable_in_rescaled_units(r1, E, nt, &why))
+      return Verdict::fail(fmt("%s [%s] returns %s for the finite operands %s although the result is representable: %s", r1->name, ntinfo(nt).name, comps_dec(E.out, nc).c_str(), show_args(r1, E).c_str(), why.c_str()));
+    return Verdict::skip(all_zero(E.out, nc) ? "intermediate-zero" : "intermediate-not-finite");
+  }
   for (int j = 0; j < nc; j++) if (E.out[j] != 0 && std::fabs(E.out[j]) < std::ldexp((LD)1, ntinfo(nt).emin + 2)) return Verdict::skip("intermediate-subnormal");
   auto back = [&](const LD* cvals, LD* outv) {
     Eval F;
@@ -359,7 +410,13 @@ static Verdict c05_pair(const Case& c) {
   };
   LD a2[9];
   back(E.out, a2);
-  if (!finite_all(a2, na)) return Verdict::skip("inverse-not-finite");
+  if (!finite_all(a2, na)) {
+    Eval F; std::string why;
+    for (int j = 0; j < r2->nargs; j++) { const LD* src = P.map[(size_t)j] == -1 ? E.out : E.st[P.map[(size_t)j]]; for (int q = 0; q < 9; q++) F.in[j][q] = F.st[j][q] = src[q]; }
+    if (representable_in_rescaled_units(r2, F, nt, &why))
+      return Verdict::fail(fmt("%s [%s] (the inverse of %s) returns %s for the finite operands %s although the result is representable: %s", r2->name, ntinfo(nt).name, r1->name, comps_dec(a2, na).c_str(), show_args(r2, F).c_str(), why.c_str()));
+    return Verdict::skip("inverse-not-finite");
+  }
   const LD* a = E.st[P.target];
   Verdict V; V.cls = std::string(ntinfo(nt).name) + ";kind" + std::to_string(r1->kind) + "/" + std::to_string(r2->kind);
   if (P.exact) {
